@@ -539,7 +539,44 @@ def _excluded_reason(v):
     return None
 
 
+def _has_nan(v):
+    import payload_oracle as po
+    sink: dict = {}
+    po.walk(v, sink)
+    for xs in sink.values():
+        for x in xs:
+            vals = getattr(x, "values", None)
+            for val in ([getattr(x, "value", None)] + (list(vals) if isinstance(vals, (list, tuple)) else [])):
+                if isinstance(val, float) and val != val:
+                    return True
+    return False
+
+
+def _holds_decoded_raw(v):
+    import payload_oracle as po
+    sink: dict = {}
+    po.walk(v, sink)
+    return any(not isinstance(x.value, (bytes, bytearray)) for K, xs in sink.items() if K.__name__ in ("RawData", "Alias", "Path")
+               for x in xs)
+
+
 def run(ctx):
+    """A change of the source is never an infrastructure error: when the harness can no longer drive the descriptor
+    classes (renamed class, changed constructor, ...) the correspondence is broken, which is what gets recorded."""
+    try:
+        _run(ctx)
+    except core.Infra:
+        raise
+    except Exception as e:  # noqa
+        import traceback
+        tb = traceback.extract_tb(e.__traceback__)
+        ctx.disagree("descriptor check aborted: the harness could not drive psd/descriptor.py as modelled (%s: %s)"
+                     % (type(e).__name__, str(e)[:200]),
+                     {"traceback_tail": [f"{fr.filename.rsplit('/', 1)[-1]}:{fr.lineno} {fr.name}" for fr in tb[-5:]]})
+        ctx.notes.append("descriptor correspondence did not complete (see the disagreement)")
+
+
+def _run(ctx):
     import codec_common as cc
     t0 = time.time()
     D = _D()
@@ -572,9 +609,9 @@ def run(ctx):
             cases += [("fixture", x) for x, _ in xs]
     n_fixture_cases = len(cases)
     cases += [("boundary", v) for v in boundary_values(g)]
-    for _ in range(12 if quick else 300):
+    for _ in range(12 if quick else 400):
         cases += [("generated", v) for v in g.scalar_of_every_class()]
-    for i in range(300 if quick else 8000):
+    for i in range(300 if quick else 20000):
         mk = g.container_makers[i % len(g.container_makers)]
         cases.append(("generated", mk(1 + i % 4)))
     for dp in (5, 40, 150):
@@ -665,6 +702,14 @@ def run(ctx):
                          {"class": nm, "value": _short(toks), "model_wf": iswf, "harness": why})
         if ok:
             ctx.hist("descriptor_oracle", "round-trips" if why is None else "excluded-by-WF-but-round-trips")
+            try:
+                pyeq = bool(r0[1] == v)
+            except Exception:  # noqa
+                pyeq = None
+            ctx.hist("descriptor_python_eq_on_round_tripping_values", str(pyeq) if pyeq is not False else
+                     ("False (holds a NaN)" if _has_nan(v) else
+                      "False (RawData.value is a decoded EngineData object; the bare class re-reads bytes; C18)"
+                      if _holds_decoded_raw(v) else "False (unexplained)"))
         elif why is not None:
             excluded[why] += 1
             ctx.hist("descriptor_oracle", "excluded-by-WF:" + why)
@@ -680,7 +725,7 @@ def run(ctx):
     # ------------------------------------------------------------------ error paths: mutated encodings, outcome class
     pool = [c for c in dec_cases if len(c[3][1]) <= 1500]
     rng.shuffle(pool)
-    pool = pool[: (250 if quick else 4000)]
+    pool = pool[: (250 if quick else 8000)]
     mreqs, mexp = [], []
     for c in pool:
         K = type(c[1])
@@ -856,5 +901,20 @@ def run(ctx):
     ctx.extra["descriptor_phase_seconds"] = round(time.time() - t0, 1)
     ctx.extra["descriptor_cases"] = {"fixture_values": n_fixture_cases, "fixture_distinct_total": n_distinct,
                                      "all_cases": len(live), "blocks": len(blive), "mutations": len(mreqs)}
+    ctx.rule += (
+        " Descriptors: every distinct (class, bytes written) value of the 25 registered classes and of DescriptorBlock(2) reachable "
+        "in the parsed fixtures (quick: all of the rare classes and a seeded sample of the others, about 1300 of %d; thorough: all), "
+        "hand-listed boundary values (each width at 0/max, empty strings/lists, lone surrogates, every terminology value as a key, "
+        "non-term keys of length 0..12, implicit keys), seeded generated values of every class with nesting depth <= 4, lists nested "
+        "5/40/150 deep, values that do not fit a width; each is one writer case (bytes, returned count, WF) and one reader case "
+        "(structure and cursor, with random bytes before and after) plus the Python-only oracle; up to 10 structural mutations "
+        "(truncate, overwrite a 4-byte word with a count/OSType/unit, flip, insert, delete) of each of %d encodings are reader cases "
+        "(exception class, or structure and cursor when accepted)." % (n_distinct, len(pool)))
     if ctx.tier == "thorough":
+        prev = ctx.extra.get("leanchecker")
         ctx.recheck(["PsdVerif.Props.C01Descriptor"])
+        mine = ctx.extra.get("leanchecker")
+        if isinstance(prev, dict) and isinstance(mine, dict):
+            ctx.extra["leanchecker"] = {"modules": prev.get("modules", []) + mine.get("modules", []),
+                                        "ok": bool(prev.get("ok")) and bool(mine.get("ok")),
+                                        "tail": (prev.get("tail", "") + mine.get("tail", ""))[-400:]}
